@@ -417,6 +417,7 @@ func genRuns(r *simkit.RNG, sc *Scenario, k *knobs, profile string) {
 		p.RoundTrip = simkit.Pick(r, []string{"seq", "pipe"})
 		p.PipeCap = simkit.Pick(r, []int{1, 7, 64, 512, 4096, 65536})
 		p.Chunks = simkit.Pick(r, wchunks)
+		p.RtAlias = r.Chance(1, 5)
 		sc.Runs = []PackRun{p}
 		if k.concShared {
 			// two callers sharing one Packer, both results unpacked afterwards
@@ -470,6 +471,7 @@ func genRuns(r *simkit.RNG, sc *Scenario, k *knobs, profile string) {
 		p := run()
 		if r.Chance(1, 2) {
 			p.RoundTrip = "seq"
+			p.RtAlias = r.Chance(1, 3)
 		}
 		sc.Runs = []PackRun{p}
 	case "spell":
